@@ -18,11 +18,10 @@
    and uploadFlush's commit / failure branches.  These are a private minimal
    write-path model; the write path proper is model/Storage.v (C01/C02/C05/C06).
 
-   The model is of the tree WITH fixes/C03-flush-window-read-order.patch and
-   fixes/C04-find-index-entry-floor.patch applied: [read] asks the in-flight
-   batches before the buffer, and [bsearch] tests [mid+1 < len(entries)].
-   [find_entry_head] / [read_head] keep the HEAD behaviour for the refutation
-   witnesses.
+   [read] is the tree WITH fixes/C03-flush-window-read-order.patch,
+   fixes/C04-find-index-entry-floor.patch and fixes/C04-never-cut-inside-index-block.patch
+   applied; [read_floor] is the tree without the last one, [read_head] the tree before
+   all three (see [variant]).
 
    What uploadFlush does with the in-flight batches when an upload fails differs
    between HEAD (dropped) and fixes/C01-requeue-failed-flush.patch (put back at the
@@ -205,15 +204,39 @@ Definition find_entry := find_entry_gen true.
 Definition find_entry_head := find_entry_gen false.
 
 (* ---------- computeSegmentRange / sliceCachedSegment / sliceFullSegmentData ---------- *)
-Definition compute_range_gen (fixed : bool) (size : Z) (es : list ientry) (o max : Z) : Z * Z :=
+(* Three versions of the read path are modelled:
+     VHead  - the tree before any C03/C04 fix (findIndexEntry with `mid+1 <= hi`);
+     VFloor - with fixes/C04-find-index-entry-floor.patch;
+     VFull  - additionally fixes/C04-never-cut-inside-index-block.patch: when the index
+              entry is not exactly at the offset, computeSegmentRange does not cut the
+              range before the position of the first index entry beyond the offset. *)
+Inductive variant := VHead | VFloor | VFull.
+Definition v_floor (v : variant) : bool := match v with VHead => false | _ => true end.
+Definition v_ext (v : variant) : bool := match v with VFull => true | _ => false end.
+
+(* indexBlockEnd *)
+Fixpoint block_end (es : list ientry) (o limit : Z) : Z :=
+  match es with
+  | [] => limit
+  | e :: r => if o <? ie_off e then ie_pos e else block_end r o limit
+  end.
+
+Definition compute_range_gen (fixed : variant) (size : Z) (es : list ientry) (o max : Z) : Z * Z :=
   if size <=? segment_footer_len then (-1, -1)
   else
-    let start := ie_pos (find_entry_gen fixed es o) in
+    let entry := find_entry_gen (v_floor fixed) es o in
+    let start := ie_pos entry in
     let end_limit := size - segment_footer_len in
     if end_limit <=? start then (-1, -1)
     else
       let e := end_limit - 1 in
-      (start, if 0 <? max then Z.min e (start + max - 1) else e).
+      (start,
+       if 0 <? max then
+         let max_end := start + max - 1 in
+         let max_end := if v_ext fixed && (ie_off entry <? o)
+                        then Z.max max_end (block_end es o end_limit - 1) else max_end in
+         Z.min e max_end
+       else e).
 
 Definition slice_full (data : bytes) (max : Z) : bytes :=
   let len := zlen data in
@@ -225,7 +248,7 @@ Definition slice_full (data : bytes) (max : Z) : bytes :=
 
 Inductive rres := ROk (d : bytes) | ROutOfRange | RS3Err | RPanic.
 
-Definition slice_cached_gen (fixed : bool) (s : segment) (o max : Z) (data : bytes) : rres :=
+Definition slice_cached_gen (fixed : variant) (s : segment) (o max : Z) (data : bytes) : rres :=
   if is_nil (s_entries s) then ROk (slice_full data max)
   else
     let '(st, en) := compute_range_gen fixed (s_size s) (s_entries s) o max in
@@ -236,7 +259,7 @@ Definition slice_cached_gen (fixed : bool) (s : segment) (o max : Z) (data : byt
       else ROk (slice data st (en + 1)).
 
 (* segmentRangeForOffset *)
-Definition range_for_gen (fixed : bool) (s : segment) (o max : Z) : option (Z * Z) :=
+Definition range_for_gen (fixed : variant) (s : segment) (o max : Z) : option (Z * Z) :=
   if (s_size s <=? 0) || is_nil (s_entries s) then None
   else
     let '(st, en) := compute_range_gen fixed (s_size s) (s_entries s) o max in
@@ -271,7 +294,7 @@ Definition read_uncached_gen fixed (s : segment) (o max : Z) : rres :=
 
 (* which path an uncached read takes: 1 = range read, 2 = full download *)
 Definition uncached_path (s : segment) (o max : Z) : Z :=
-  match range_for_gen true s o max with Some _ => 1 | None => 2 end.
+  match range_for_gen VFull s o max with Some _ => 1 | None => 2 end.
 
 (* ---------- segment lookup with gap snap-forward ---------- *)
 Fixpoint find_segment (segs : list segment) (o : Z) : option (segment * Z) :=
@@ -297,7 +320,7 @@ Definition records_from (bs : list batch) (o max : Z) : bytes := records_from_au
 (* ---------- PartitionLog.Read ---------- *)
 (* [cached]: the segment cache is enabled and holds the segment.
    [flush_first]: true = fixed order (in-flight batches, then buffer); false = HEAD *)
-Definition read_gen (fixed flush_first : bool) (l : plog) (cached : bool) (o max : Z) : rres :=
+Definition read_gen (fixed : variant) (flush_first : bool) (l : plog) (cached : bool) (o max : Z) : rres :=
   match find_segment (l_segs l) o with
   | Some (s, o') => if cached then read_cached_gen fixed s o' max else read_uncached_gen fixed s o' max
   | None =>
@@ -308,26 +331,28 @@ Definition read_gen (fixed flush_first : bool) (l : plog) (cached : bool) (o max
       if is_nil body then ROutOfRange else ROk body
   end.
 
-Definition read := read_gen true true.
-Definition read_head := read_gen false false.       (* the unpatched tree *)
-Definition read_cached := read_cached_gen true.
-Definition read_uncached := read_uncached_gen true.
-Definition read_range := read_range_gen true.
-Definition read_full := read_full_gen true.
-Definition compute_range := compute_range_gen true.
+Definition read := read_gen VFull true.
+Definition read_floor := read_gen VFloor true.       (* without the cap extension *)
+Definition read_head := read_gen VHead false.        (* the unpatched tree *)
+Definition read_cached := read_cached_gen VFull.
+Definition read_uncached := read_uncached_gen VFull.
+Definition read_range := read_range_gen VFull.
+Definition read_full := read_full_gen VFull.
+Definition compute_range := compute_range_gen VFull.
 
 (* ---------- fetch slice of handleFetch ---------- *)
 (* [hw] = the watermark handleFetch bounds reads with (metadata store next offset,
    raised to BufferedHighWatermark when flushOnAck is off). *)
 Inductive fres := FOffsetOutOfRange | FEmpty | FRecords (d : bytes) | FBackpressure.
-Definition fetch (l : plog) (cached : bool) (hw o max : Z) : fres :=
+Definition fetch_gen (v : variant) (l : plog) (cached : bool) (hw o max : Z) : fres :=
   if hw <? o then FOffsetOutOfRange
   else if o =? hw then FEmpty
-  else match read l cached o max with
+  else match read_gen v true l cached o max with
        | ROk d => FRecords d
        | ROutOfRange => FOffsetOutOfRange
        | _ => FBackpressure
        end.
+Definition fetch := fetch_gen VFull.
 
 (* ---------- vocabulary of the property statements (no proofs here) ---------- *)
 (* appended payloads the theorems range over: what NewRecordBatchFromBytes accepts,
